@@ -23,7 +23,7 @@ case "${1:-}" in
     build_sched
     echo "setup ok"
     ;;
-  C14|C17)
+  C14|C17|C18)
     id=$1; tier=${2:-${VERIF_TIER:-quick}}
     build_sched
     shift; shift
